@@ -44,7 +44,7 @@ struct FS {
     std::string crash_event_kind, crash_event_path; size_t crash_event_bytes = 0, crash_torn_at = 0;
     std::function<void(const std::string &, bool)> on_close; // (path, was open for writing), called when a descriptor is closed
 
-    void reset() { on_close = nullptr; files.clear(); fds.clear(); open_errno.clear(); p_short_read = p_short_write = p_eintr = 0; event_count = 0; crash_at = -1; frozen = false; image.clear(); events.clear(); trace = sim::Hash(); crash_event_kind.clear(); }
+    void reset() { on_close = nullptr; files.clear(); fds.clear(); open_errno.clear(); p_short_read = p_short_write = p_eintr = 0; event_count = 0; crash_at = -1; frozen = false; image.clear(); events.clear(); trace = sim::Hash(); crash_event_kind.clear(); crash_event_path.clear(); crash_event_bytes = 0; crash_torn_at = 0; }
     void inc(const char *k) { if (st) st->inc(k); }
     // returns true if this event is the crash point (caller applies the torn part to the image)
     bool tick(const char *kind, const std::string &path, size_t bytes) {
